@@ -2245,3 +2245,76 @@ def rule_lambda_names_by_evaluation(ctx, rep: Report, rid="W12"):
     if evaluated == 0:
         rep.add(rid, "emitters evaluated on sample declarations", True, "none of the emitters could be run by the interpreter; W4 decides by structure", f"{ci.mod.rel}:0",
                 nontrivial=False)
+
+
+def rule_class_block_independent_of_earlier_classes(ctx, rep: Report, rid="P10"):
+    """The block generated for one (instantiated) class is a function of that class alone.  The per-class emitter
+    (wrap_instantiated_class and everything it calls on the wrapper) may keep books on the wrapper object - which classes were
+    given serialization helpers, say - but what it *emits* must not depend on those books: a test on a wrapper attribute that
+    the per-class code itself fills may only guard the book-keeping.  If it guards an assignment to a local, a return or a piece
+    of text (uniquifying a variable name against the names used so far), the block of `Holder<B>` differs according to whether
+    `Holder<A>` was wrapped before it - `template<T={A,B}>` no longer gives for B what `template<T={B}>` gives."""
+    ci, prog = pw(ctx)
+    start = prog.method("PybindWrapper", "wrap_instantiated_class")
+    closure, todo = [], [start]
+    while todo:
+        f_ = todo.pop()
+        if f_ in closure:
+            continue
+        closure.append(f_)
+        for c in ast.walk(f_):
+            if isinstance(c, ast.Call) and isinstance(c.func, ast.Attribute) and isinstance(c.func.value, ast.Name) and c.func.value.id == "self":
+                h = prog.find_method(ci, c.func.attr)
+                if h is not None and h[1] not in closure:
+                    todo.append(h[1])
+    if len(closure) < 5:
+        raise AnalysisError(f"{rep.prop}/{rid}: only {len(closure)} functions reachable from wrap_instantiated_class")
+
+    def self_attr(x) -> Optional[str]:
+        return x.attr if isinstance(x, ast.Attribute) and isinstance(x.value, ast.Name) and x.value.id == "self" else None
+    written: Dict[str, int] = {}
+    for f_ in closure:
+        for n in ast.walk(f_):
+            if isinstance(n, ast.Call) and isinstance(n.func, ast.Attribute) and n.func.attr in ("append", "add", "extend", "insert", "update", "setdefault", "pop", "remove") \
+                    and self_attr(n.func.value):
+                written.setdefault(self_attr(n.func.value), n.lineno)
+            if isinstance(n, (ast.Assign, ast.AugAssign)):
+                for t in (n.targets if isinstance(n, ast.Assign) else [n.target]):
+                    b = t.value if isinstance(t, ast.Subscript) else t
+                    if self_attr(b):
+                        written.setdefault(self_attr(b), n.lineno)
+    rep.units["wrapper_attributes_written_per_class"] = len(written)
+
+    def is_bookkeeping(st) -> bool:
+        if isinstance(st, ast.Expr) and isinstance(st.value, ast.Call) and isinstance(st.value.func, ast.Attribute) and self_attr(st.value.func.value) in written:
+            return True
+        if isinstance(st, (ast.Assign, ast.AugAssign)):
+            ts = st.targets if isinstance(st, ast.Assign) else [st.target]
+            return all(self_attr(t.value if isinstance(t, ast.Subscript) else t) in written for t in ts)
+        return isinstance(st, ast.Pass)
+    n = 0
+    for f_ in closure:
+        guarded_reads = set()
+        for g in ast.walk(f_):
+            if isinstance(g, (ast.If, ast.While)):
+                reads = [x for x in ast.walk(g.test) if self_attr(x) in written]
+                if not reads:
+                    continue
+                for x in reads:
+                    guarded_reads.add(id(x))
+                n += 1
+                other = [st for st in list(g.body) + list(g.orelse) if not is_bookkeeping(st)]
+                rep.add(rid, f"{f_.name}:test on self.{self_attr(reads[0])} (filled class by class) guards book-keeping only", not other,
+                        f"`{unparse(g.test)[:50]}` decides `{unparse(other[0])[:50] if other else ''}`: what is emitted for this class depends on the classes "
+                        f"wrapped before it (self.{self_attr(reads[0])} is filled at line {written[self_attr(reads[0])]})", f"{ci.mod.rel}:{g.lineno}")
+        for x in ast.walk(f_):
+            if self_attr(x) in written and isinstance(x.ctx, ast.Load) and id(x) not in guarded_reads:
+                p_ = parent(x)
+                if isinstance(p_, ast.Attribute) and isinstance(parent(p_), ast.Call) and parent(p_).func is p_:
+                    continue          # the mutation itself
+                if isinstance(p_, ast.Subscript) and isinstance(p_.ctx, ast.Store):
+                    continue
+                n += 1
+                rep.add(rid, f"{f_.name}:self.{self_attr(x)} (filled class by class) is not read into the emitted text", False,
+                        f"`{unparse(stmt_of(x))[:60]}` reads what earlier classes of the run left behind", f"{ci.mod.rel}:{x.lineno}")
+    rep.units["functions_in_the_per_class_emitter"] = len(closure)
